@@ -4,9 +4,6 @@ From AY Require Import Model.Merge Proofs.NodeInd Proofs.FlagsLemmas Proofs.Fact
 (* ---------- the trees C02 talks about ---------- *)
 Definition OF (f : flags) : Prop := f_prio f = None /\ f_del f = None /\ f_new f = None /\ f_inew f = None.
 
-Fixpoint keys_enum (i : Z) (l : list (key * node)) : Prop :=
-  match l with [] => True | kc :: r => fst kc = KI i /\ keys_enum (i + 1) r end.
-
 Inductive Old : node -> Prop :=
 | OldLeaf f v : OF f -> Old (Leaf LScalar f v)
 | OldDict f x ch : OF f -> Forall (fun kc => Old (snd kc)) ch -> Old (Comp CDict f x ch)
